@@ -120,7 +120,7 @@ fn any_csc_fp<const M: usize, const N: usize, const NNZ: usize>() -> CscMatrix<F
 
 /// whole-matrix forms: [T] / Vec<T> of values, CscMatrix with matching pattern
 #[kani::proof]
-#[kani::unwind(7)]
+#[kani::unwind(26)] // check_equal_sparsity compares colptr/rowval with == (memcmp over 24 bytes)
 pub fn c08_matrix_full() {
     const M: usize = 3;
     const N: usize = 2;
@@ -204,7 +204,7 @@ pub fn c08_matrix_partial() {
             k += 1;
         }
     }
-    kani::cover!(all_ok && M0.colptr[1] == 0 && M0.colptr[2] == 0, "two leading empty columns");
+    kani::cover!(all_ok && M0.colptr[1] == 0 && M0.colptr[2] == 1, "empty first column");
     kani::cover!(all_ok && M0.colptr[2] == NNZ, "empty last column");
 }
 
